@@ -665,9 +665,43 @@ func (x *Exec) tryReplay(prop string, cfg *PropCfg, r *SolveResult, ob *Oblig, r
 	if clause == nil {
 		return false
 	}
+	imports := map[string]string{} // package path -> name, for the types named in the test
+	qual := func(pk *types.Package) string {
+		if pk == fn.Pkg.Pkg {
+			return ""
+		}
+		imports[pk.Path()] = pk.Name()
+		return pk.Name()
+	}
+	isTime := func(t types.Type) bool {
+		n, ok := types.Unalias(t).(*types.Named)
+		return ok && n.Obj().Pkg() != nil && n.Obj().Pkg().Path() == "time" && n.Obj().Name() == "Time"
+	}
+	// replayable: scalars, time.Time (Unix nanoseconds in the model) and structs of those whose fields the
+	// in-package test can assign
+	var replayable func(t types.Type) bool
+	replayable = func(t types.Type) bool {
+		if isScalar(t) || isTime(t) {
+			return true
+		}
+		st, ok := t.Underlying().(*types.Struct)
+		if !ok {
+			return false
+		}
+		for i := 0; i < st.NumFields(); i++ {
+			f := st.Field(i)
+			if !f.Exported() && f.Pkg() != fn.Pkg.Pkg {
+				return false
+			}
+			if !replayable(f.Type()) {
+				return false
+			}
+		}
+		return true
+	}
 	for _, p := range fn.Params {
-		if !isScalar(p.Type()) {
-			rep["replay_note"] = "replay not possible generically: parameter " + p.Name() + " is not a scalar"
+		if !replayable(p.Type()) {
+			rep["replay_note"] = "replay not possible generically: parameter " + p.Name() + " is neither a scalar nor a struct of scalars"
 			return false
 		}
 	}
@@ -675,38 +709,67 @@ func (x *Exec) tryReplay(prop string, cfg *PropCfg, r *SolveResult, ob *Oblig, r
 	vals := parseModelConsts(r.Model)
 	vars := map[string]SV{}
 	var argTexts []string
+	var setup []string
 	inputs := map[string]string{}
-	for _, p := range fn.Params {
-		v, ok := vals["in_"+p.Name()]
+	scalarLit := func(t types.Type, name string) (*Term, string) {
+		v, ok := vals[name]
 		if !ok {
 			v = "0" // not mentioned by the model: any value will do
 		}
-		b := p.Type().Underlying().(*types.Basic)
-		tn := types.TypeString(p.Type(), func(pk *types.Package) string {
-			if pk == fn.Pkg.Pkg {
-				return ""
-			}
-			return pk.Name()
-		})
-		var sv SV
-		var lit string
+		b := t.Underlying().(*types.Basic)
+		tn := types.TypeString(t, qual)
 		if b.Info()&types.IsBoolean != 0 {
 			bv := v == "true"
-			sv = scalarSV(p.Type(), boolTerm(bv))
-			lit = fmt.Sprintf("%s(%t)", tn, bv)
-		} else {
-			u, _ := strconv.ParseUint(v, 10, 64)
-			w := leavesOf(p.Type())[0].sort.bv
-			sv = scalarSV(p.Type(), mkBVu(u&widthMask(w), w))
-			if b.Info()&types.IsUnsigned != 0 {
-				lit = fmt.Sprintf("%s(%d)", tn, u&widthMask(w))
-			} else {
-				lit = fmt.Sprintf("%s(%d)", tn, signExtend(u, w))
-			}
+			return boolTerm(bv), fmt.Sprintf("%s(%t)", tn, bv)
 		}
-		vars[p.Name()] = sv
-		inputs[p.Name()] = lit
-		argTexts = append(argTexts, lit)
+		u, _ := strconv.ParseUint(v, 10, 64)
+		w := leavesOf(t)[0].sort.bv
+		if b.Info()&types.IsUnsigned != 0 {
+			return mkBVu(u&widthMask(w), w), fmt.Sprintf("%s(%d)", tn, u&widthMask(w))
+		}
+		return mkBVu(u&widthMask(w), w), fmt.Sprintf("%s(%d)", tn, signExtend(u, w))
+	}
+	var fill func(t types.Type, goPath, leafName string) []*Term
+	fill = func(t types.Type, goPath, leafName string) []*Term {
+		switch {
+		case isScalar(t):
+			tm, lit := scalarLit(t, leafName)
+			setup = append(setup, goPath+" = "+lit)
+			inputs[goPath] = lit
+			return []*Term{tm}
+		case isTime(t):
+			imports["time"] = "time"
+			var out []*Term
+			ns := int64(0)
+			for _, l := range leavesOf(t) {
+				if l.path == ".ext" {
+					if v, ok := vals[leafName+".ext"]; ok {
+						u, _ := strconv.ParseUint(v, 10, 64)
+						ns = int64(u)
+					}
+					out = append(out, mkBVu(uint64(ns), 64))
+				} else {
+					out = append(out, mkBV(0, l.sort.bv))
+				}
+			}
+			setup = append(setup, fmt.Sprintf("%s = time.Unix(0, %d)", goPath, ns))
+			inputs[goPath] = fmt.Sprintf("time.Unix(0, %d)", ns)
+			return out
+		}
+		st := t.Underlying().(*types.Struct)
+		var out []*Term
+		for i := 0; i < st.NumFields(); i++ {
+			f := st.Field(i)
+			out = append(out, fill(f.Type(), goPath+"."+f.Name(), leafName+"."+f.Name())...)
+		}
+		return out
+	}
+	for i, p := range fn.Params {
+		an := fmt.Sprintf("a%d", i)
+		setup = append(setup, "var "+an+" "+types.TypeString(p.Type(), qual))
+		ls := fill(p.Type(), an, "in_"+p.Name())
+		vars[p.Name()] = SV{ty: p.Type(), l: ls}
+		argTexts = append(argTexts, an)
 	}
 	// the call
 	call := fn.Name() + "(" + strings.Join(argTexts, ", ") + ")"
@@ -735,8 +798,16 @@ func (x *Exec) tryReplay(prop string, cfg *PropCfg, r *SolveResult, ob *Oblig, r
 	if rs.Len() == 0 {
 		return false
 	}
-	src := "package " + fn.Pkg.Pkg.Name() + "\n\nimport (\n\t\"fmt\"\n\t\"strings\"\n\t\"testing\"\n)\n\n" +
-		"func TestGowpReplay(t *testing.T) {\n\t" + strings.Join(lhs, ", ") + " := " + call + "\n" +
+	var imps []string
+	for pth, nm := range imports {
+		if pth == "fmt" || pth == "strings" || pth == "testing" {
+			continue
+		}
+		imps = append(imps, fmt.Sprintf("\t%s %q\n", nm, pth))
+	}
+	sort.Strings(imps)
+	src := "package " + fn.Pkg.Pkg.Name() + "\n\nimport (\n\t\"fmt\"\n\t\"strings\"\n\t\"testing\"\n" + strings.Join(imps, "") + ")\n\n" +
+		"func TestGowpReplay(t *testing.T) {\n\t" + strings.Join(setup, "\n\t") + "\n\t" + strings.Join(lhs, ", ") + " := " + call + "\n" +
 		"\tfmt.Println(\"GOWP-REPLAY\", strings.Join([]string{" + strings.Join(prints, ", ") + "}, \" \"))\n}\n"
 	rel := strings.TrimPrefix(fn.Pkg.Pkg.Path(), "github.com/scionproto/scion/")
 	pkgDir := filepath.Join(repoDir, rel)
